@@ -397,6 +397,28 @@ impl<'a> Renderer<'a> {
                 let n = self.name(*var);
                 self.line(&format!("{} \"{}\" {} {}", v, lit, plus, n), true)
             }
+            Op::SayArith(c, op, k) => {
+                let v = self.say_verb();
+                let n = self.name(*c);
+                let w = match op % 3 {
+                    0 => self.st.of(&["plus", "with"]),
+                    1 => self.st.of(&["minus", "without"]),
+                    _ => self.st.of(&["times", "of"]),
+                };
+                self.line(&format!("{} {} {} {}", v, n, w, k), true)
+            }
+            Op::SayCond(c) => {
+                let v = self.say_verb();
+                let t = self.cond(c);
+                self.line(&format!("{} {}", v, t), true)
+            }
+            Op::SayLength(x) => {
+                let c = self.st.of(&["Cut", "Split", "Shatter", "cut"]);
+                let n = self.name(*x);
+                self.line(&format!("{} {} into Bits", c, n), true);
+                let v = self.say_verb();
+                self.line(&format!("{} Bits", v), true)
+            }
             Op::Listen(None) => {
                 let l = self.st.kw("listen");
                 self.line(&l, true)
